@@ -29,7 +29,8 @@ EXPLANATION = (
     'severity name and message, followed by a flush - no fixed-size intermediate buffer; (GRD.3) the '
     'configuration layer\'s change predicates for strings and lists (shared with C15), without which an '
     'edited destination list is not noticed.  Range-operator '
-    'semantics are NOT decided.')
+    'semantics are NOT decided.'
+    ' Rounds 8-9: (MPT.7) a va_list is walked once; (MPT.8) a formatted length equal to the room counts as too long; (TAB.9) string comparators look at the bytes where one string ended; (TAB.10) the facility an entry names is found or created; (OWN.1) the logs section is read, not edited.')
 ASSUMPTIONS = ['clang 14 CFG']
 
 
